@@ -108,7 +108,22 @@ def run(kw, triples, thr):
 def compare_docs(a, b, M, label_of, thr, kls, texts, dec=False):
     """returns (violations, known) lists"""
     viol, kn = [], []
-    lab2S = {v: k for k, v in label_of.items()}
+    # two classes can share one label (same local name); when only one of the two shapes is printed (the other one is empty and
+    # removed) the documents do not show the collision: the class behind a label is then the one with the printed instance count,
+    # and unknown (S is None: compared leniently, as under a tie) when that does not single one out
+    lab2S = {}
+    for k_, v_ in label_of.items():
+        lab2S.setdefault(v_, []).append(k_)
+    for v_, ks_ in list(lab2S.items()):
+        if len(ks_) == 1:
+            lab2S[v_] = ks_[0]
+        else:
+            n_ = a[v_].n if (v_ in a and not isinstance(a[v_], list)) else None
+            fit = [k_ for k_ in ks_ if M.N.get(k_) == n_]
+            if len(fit) == 1:
+                lab2S[v_] = fit[0]
+            else:
+                del lab2S[v_]
     if set(a) != set(b):
         # C02-GONEREF under a tie, cascading: a shape that is in one document only is excused when EVERY key it has there is
         # non-literal, tied, and has the GONEREF signature with respect to the document that lacks the shape (in that run the
